@@ -1353,6 +1353,19 @@ impl Config {
         insert(
             &mut res, "repository-dir", self.cache_dir.display().to_string()
         );
+        if self.no_rir_tals {
+            insert(&mut res, "no-rir-tals", true);
+        }
+        if !self.bundled_tals.is_empty() {
+            insert(
+                &mut res, "tals",
+                toml::Value::Array(
+                    self.bundled_tals.iter()
+                        .map(|tal| toml::Value::from(tal.as_str()))
+                        .collect()
+                )
+            );
+        }
         if let Some(extra_tals_dir) = self.extra_tals_dir.as_ref() {
             insert(
                 &mut res, "extra-tals-dir",
